@@ -59,15 +59,33 @@ DW_EXPRS = [
     "Dw entry @AT_language", "Dw entry @AT_encoding", "Dw entry offset (pos < 4)", "Dw symbol label (pos < 5)",
     "Dw symbol binding (pos < 5)", "Dw symbol visibility (pos < 3)", "Dw entry @AT_decl_line (pos < 4)", "Dw entry @AT_low_pc",
     "Dw entry @AT_name (pos < 4)", "Dw entry @AT_external", "Dw entry (pos < 6) @AT_type",
+    # all attributes of a few DIEs that have zero-sized (flag_present) attributes next to others
+    "Dw entry ?AT_external (pos < 3) attribute", "Dw entry ?AT_declaration (pos < 2) attribute", "Dw entry ?AT_artificial (pos < 2) attribute",
+    "Dw raw entry ?AT_external (pos < 2) attribute", "Dw entry ?AT_prototyped (pos < 2) attribute",
 ]
 
-FILES = ["a1.out", "enum.o", "bitcount.o", "nontrivial-types.o", "testfile_const_type", "dwz-partial2-1", "dwz-partial3-1",
+FILES = ["a1.out", "nullptr.o", "enum.o", "bitcount.o", "nontrivial-types.o", "testfile_const_type", "dwz-partial2-1", "dwz-partial3-1",
          "float_const_value.o-armv7hl", "float_const_value.o-ppc64"]
 
 
 def vkey(v):
     """Value identity as far as the dump shows it (for duplicate detection)."""
     return repr({k: x for k, x in v.items() if k not in ("p", "sh", "f", "b")})
+
+
+def ident(v):
+    """What a DWARF value *is*, where the driver's dump says so unambiguously (None: not judged).  The view
+    (raw/cooked) and the import route are left out: values that differ only there are equal by design."""
+    t = v["t"]
+    if t == "die":
+        return (v["dw"], v["off"])
+    if t == "at":
+        return (v["die"]["dw"], v["die"]["off"], v["name"])
+    if t == "cu":
+        return (v.get("dw"), v["off"])
+    if t == "sym":
+        return (v.get("dw"), v["idx"])
+    return None
 
 
 def vtype(v):
@@ -180,6 +198,11 @@ def check_pool(ev, desc, pool, m, rnd, exclude_die_routes=True):
                 viol("values of different types compare equal", [i, j])
             if vkey(pool[i]) == vkey(pool[j]) and not eq[i][j] and types[i] in ("c", "s", "q", "as"):
                 viol("a value does not equal its copy", [i, j])
+            # the order is one over *values*: two DWARF values that are different things never compare equal
+            if eq[i][j] and types[i] == types[j]:
+                a, b = ident(pool[i]), ident(pool[j])
+                if a is not None and b is not None and a != b:
+                    viol("two different %s values compare equal" % types[i], [i, j])
     # cross-type consistency
     dirs = {}
     for i in range(n):
@@ -240,7 +263,7 @@ def work(task):
         dwx = []
         if fn:
             tok = "V%d" % drv.open(os.path.join("/repo/tests", fn), False)
-            dwx = rnd.sample(DW_EXPRS, min(n_dw, len(DW_EXPRS)))
+            dwx = rnd.sample(DW_EXPRS[:-5], min(n_dw, len(DW_EXPRS) - 5)) + rnd.sample(DW_EXPRS[-5:], 3)
         core = list(CORE_EXPRS) if idx == 0 else rnd.sample(CORE_EXPRS, min(n_core, len(CORE_EXPRS)))
         if fn and idx % 2 == 1:
             core = rnd.sample(CORE_EXPRS, 25)
@@ -371,7 +394,7 @@ def main(tier, seed):
     nrand = 6 if tier == "quick" else 60
     for i in range(1, nrand + 1):
         tasks.append((seed, i, None, 70, 0))
-    files = FILES if tier == "thorough" else FILES[:7]
+    files = FILES if tier == "thorough" else FILES[:8]
     k = 100
     for rep in range(1 if tier == "quick" else 6):
         for fn in files:
